@@ -102,3 +102,8 @@ pub assume_specification<T: core::cmp::Ord> [core::cmp::min] (a: T, b: T) -> (r:
 pub fn cells_as_slice<T>(s: &[SyncUnsafeCell<T>]) -> (r: &[T])
     ensures r@.len() == s@.len(), forall|i: int| 0 <= i < s@.len() ==> r@[i] == (#[trigger] s@[i]).cv(),
 { unimplemented!() }
+
+// core::ptr::drop_in_place (N10 -> raw_drop_in_place): runs the destructor of the pointee; what the slot holds afterwards is NOT
+// specified (logically uninitialised), so code relying on it cannot be verified against a contract that mentions the slot
+#[verifier::external_body]
+pub unsafe fn raw_drop_in_place<T>(p: &mut T) { unimplemented!() }
